@@ -18,7 +18,7 @@ use serde::ser::Impossible;
 use serde::{Deserialize, Serialize};
 use serde_json::json;
 
-use crate::core::{clip, guarded, Log, Sim, Stats, Violation};
+use crate::core::{clip, guarded, string_shrinks, Log, Sim, Stats, Violation};
 use crate::gen;
 use crate::io_stub::{FmtFault, RFault, SimFmtSink, SimReader, SimWriter, WFault};
 use crate::rng::{Fnv, Rng};
@@ -55,6 +55,9 @@ pub enum DeKind {
     Value,
     /// serde's own `de::value` string deserializers (Str, String, BorrowedStr, CowStr by index).
     SerdeStr(u8),
+    /// `Deserialize::deserialize_in_place` over an existing PURL that has qualifiers, a checksum and a
+    /// subpath (directly, or as the one element of an existing `Vec`, whose in-place visitor reuses it).
+    InPlace { vec: bool },
 }
 
 #[derive(Clone, Debug, PartialEq, Eq, Serialize, Deserialize)]
@@ -1063,7 +1066,9 @@ where
             }
             stats.bump("consumer_phases.reader");
         },
-        DeKind::Slice | DeKind::Str | DeKind::Value | DeKind::SerdeStr(_) => {
+        DeKind::Slice | DeKind::Str | DeKind::Value | DeKind::SerdeStr(_) | DeKind::InPlace { .. } => {
+            let previous = guarded(|| GenericPurl::<T>::from_str("pkg:npm/prev@0?a=1&checksum=md5:00&z=9#s").ok())
+                .map_err(|p| violation!("C16.panic_in_parse", "parsing the previous value of the in-place lane panicked: {p}"))?;
             for (i, it) in items.iter().enumerate() {
                 let bytes = &stream[spans[i].0..spans[i].1];
                 let how = format!("{:?}, document {i}", sc.de);
@@ -1072,6 +1077,29 @@ where
                     (DeKind::Str, _) => match std::str::from_utf8(bytes) {
                         Ok(s) => serde_json::from_str::<W<GenericPurl<T>, K>>(s).map(|w| w.0).map_err(|e| e.to_string()),
                         Err(e) => Err(e.to_string()),
+                    },
+                    (DeKind::InPlace { vec }, _) => match previous.clone() {
+                        None => Err("harness: no previous value".to_owned()),
+                        // (The string-only serializer lane has no wrapper, whatever `vec` says.)
+                        Some(prev) if vec && K == 2 => {
+                            let mut place = vec![prev];
+                            let mut de = serde_json::Deserializer::from_slice(bytes);
+                            match Deserialize::deserialize_in_place(&mut de, &mut place).and_then(|()| de.end()) {
+                                Ok(()) => match (place.pop(), place.is_empty()) {
+                                    (Some(p), true) => Ok(p),
+                                    _ => Err("harness: expected exactly one element".to_owned()),
+                                },
+                                Err(e) => Err(e.to_string()),
+                            }
+                        },
+                        Some(prev) => {
+                            let mut place = prev;
+                            let mut de = serde_json::Deserializer::from_slice(bytes);
+                            match Deserialize::deserialize_in_place(&mut de, &mut place).and_then(|()| de.end()) {
+                                Ok(()) => Ok(place),
+                                Err(e) => Err(e.to_string()),
+                            }
+                        },
                     },
                     (DeKind::SerdeStr(n), Some(s)) => match n % 4 {
                         0 => GenericPurl::<T>::deserialize(StrDeserializer::<ValueError>::new(s)).map_err(|e| e.to_string()),
@@ -1193,7 +1221,8 @@ impl Sim for C16 {
             9 => SerKind::ToValue,
             _ => SerKind::OwnFmt,
         };
-        let de = match rng.below(12) {
+        let de = match rng.below(13) {
+            12 => DeKind::InPlace { vec: rng.chance(1, 2) },
             0..=3 => SerKindDe::stream(&mut rng),
             4 => DeKind::ReaderSingle { buf: *rng.pick(&[0usize, 0, 3, 64]) },
             5 | 6 => DeKind::Slice,
@@ -1235,7 +1264,12 @@ impl Sim for C16 {
     fn execute(&self, sc: &Scenario, log: &mut Log, stats: &mut Stats) -> Result<bool, Violation> {
         ev!(log, "scenario ty={:?} wrap={:?} ser={:?} de={:?} w_chunk={} r_chunk={} w_faults={:?} r_faults={:?} f_faults={:?}", sc.ty, sc.wrap, sc.ser, sc.de, sc.w_chunk, sc.r_chunk, sc.w_faults, sc.r_faults, sc.f_faults);
         // The string-only lanes have no room for a wrapper.
-        let wrap = if sc.ser == SerKind::OwnFmt || matches!(sc.de, DeKind::SerdeStr(_)) { Wrap::Bare } else { sc.wrap };
+        let wrap = match sc.de {
+            _ if sc.ser == SerKind::OwnFmt => Wrap::Bare,
+            DeKind::SerdeStr(_) | DeKind::InPlace { vec: false } => Wrap::Bare,
+            DeKind::InPlace { vec: true } => Wrap::Seq,
+            _ => sc.wrap,
+        };
         stats.bump(match wrap {
             Wrap::Bare => "wrap.bare",
             Wrap::Struct => "wrap.struct_field",
@@ -1347,15 +1381,10 @@ impl Sim for C16 {
                         out.push(s);
                     }
                 }
-                let chars: Vec<char> = text.chars().collect();
-                if chars.len() <= 80 {
-                    for j in 0..chars.len() {
-                        let mut c = chars.clone();
-                        c.remove(j);
-                        let mut s = sc.clone();
-                        s.docs[i] = mk(c.into_iter().collect());
-                        out.push(s);
-                    }
+                for shorter in string_shrinks(text) {
+                    let mut s = sc.clone();
+                    s.docs[i] = mk(shorter);
+                    out.push(s);
                 }
             }
             if let DocSpec::Built(b) = d {
